@@ -10,9 +10,16 @@ run_topo(ctx):
      on and off; the scripted servers count the packets they receive per client query.
   3. DNSSEC-budget decorations (many DNSKEYs, same-tag keys, many RRSIGs per RRset,
      high-iteration NSEC3) ride on small topologies.
+  4. ipv6access is a model dimension (v6 in ResolveWork.tla: detached helper jobs that outlive the reply
+     and debit the same ledger; mutant DetachedFresh must violate WithinBudget / OneLedgerPerTree).
+     Topologies with v6 = TRUE (incl. glue-less multi-NS referrals, N=3 fan-out 3) are replayed with
+     ipv6access on; the harness counts one request tree until the resolver instance has no detached
+     helper job left and judges WithinBudget on that total (their own driver process, side by side
+     with the first chunk, because every run has to wait out the jobs' two-second start delay).
 Predicates false on the real code -> ctx.violation (through the driver result).
 """
 import json
+import os
 import random
 import threading
 
@@ -21,11 +28,12 @@ import vf
 MOD = "ResolveWork"
 
 
-def _summaries(res):
-    """Deduplicated model summaries printed by the spec: topology key -> {t, runs{budget: r}}."""
+def _summaries(res, v6=False):
+    """Deduplicated model summaries printed by the spec: topology key -> {t, runs{budget: r}}
+    (only the behaviours of one value of the ipv6access dimension)."""
     topos = {}
     for v in res.printed():
-        if not isinstance(v, dict) or "t" not in v:
+        if not isinstance(v, dict) or "t" not in v or bool(v.get("v6")) != v6:
             continue
         key = json.dumps(v["t"], sort_keys=True)
         e = topos.setdefault(key, {"t": v["t"], "runs": {}})
@@ -103,6 +111,38 @@ def _case(cid, entry, rnd, idx):
     return {"id": cid, "nodes": nodes, "signed": False, "exp": exp, "variants": vs, "model": runs}
 
 
+def _multi_ns(t):
+    """A glue-less referral with several NS names (the NXNS shape the detached AAAA jobs walk)."""
+    return any(x["kind"] == "NS" and len(x["tgt"]) >= 2 for x in t)
+
+
+def _case_v6(cid, entry):
+    """ipv6access on: no budget relative to another run (the variants of one case run side by side)."""
+    t = entry["t"]
+    runs = entry["runs"]
+    any_run = runs[sorted(runs)[0]]
+    exp = "answer" if any_run["off"]["reply"] == "answer" else "servfail"
+    nodes = [{"kind": x["kind"], "tgt": sorted(x["tgt"]), "fan": x["fan"]} for x in t]
+    vs = [{"label": "off", "mode": "off"},
+          {"label": "sh1", "mode": "shadow", "maxOut": 1, "maxInt": 1},
+          {"label": "en1", "mode": "enforce", "maxOut": 1, "maxInt": 1},
+          {"label": "en4_2", "mode": "enforce", "maxOut": 4, "maxInt": 2},
+          {"label": "en9_3", "mode": "enforce", "maxOut": 9, "maxInt": 3},
+          {"label": "endef", "mode": "enforce"}]
+    return {"id": cid, "nodes": nodes, "signed": False, "exp": exp, "ipv6": True, "variants": vs}
+
+
+def _need_shims(ctx):
+    """harness/c12topo reads the per-instance detached-job count through the c12 overlay shims; a check
+    with another id (bin/check C12T) has to ask for them, and the overlay list is built only once."""
+    if ctx.pid != "C12" and "c12" not in ctx.overlay_tags:
+        ctx.overlay_tags.add("c12")
+        ov = os.path.join(ctx.scratch, "overlay.json")
+        if os.path.exists(ov):
+            os.remove(ov)
+    ctx.overlay_file()      # built here, before several driver threads could race to write it
+
+
 SHADOW_ALL1 = {"label": "sh1", "mode": "shadow", "maxOut": 1, "maxInt": 1, "maxSig": 1, "maxKeys": 1, "maxRRSig": 1, "maxN3": 1}
 
 
@@ -168,9 +208,23 @@ def _stress_cases(thorough):
     return cs
 
 
+def _v6_model(ctx, thorough, out, errors):
+    """The ipv6access configurations that are not part of MC_RW_n2 (run beside MC_RW_n3)."""
+    try:
+        cfg = "MC_RW_v6n3.cfg" if thorough else "MC_RW_v6n3q.cfg"
+        r = ctx.tlc(MOD, "MC_RW.tla", cfg, workers=4, timeout=1800, heap="6g")
+        out["t3"] = _summaries(r, v6=True)
+        for cfg, want in (("MC_RW_reg_v6fresh.cfg", ("WithinBudget",)), ("MC_RW_reg_v6book.cfg", ("OneLedgerPerTree",))):
+            rr = ctx.tlc(MOD, "MC_RW.tla", cfg, workers=2, timeout=300, heap="2g", must_pass=False, count=False, tag="regression-must-fail")
+            if rr.violated not in want:
+                raise vf.MachineryError("model mutant %s (detached job on a stray ledger) no longer violates %s (got %s): vacuous model?" % (cfg, want, rr.violated))
+    except Exception as ex:  # noqa: BLE001 - re-raised by the caller
+        errors["v6model"] = ex
+
+
 def _drive(ctx, name, cases, workers, results, errors):
     try:
-        inp = {"cases": cases, "workers": workers, "queryTimeoutMs": 3000, "netTimeoutMs": 300, "marginMs": 8000}
+        inp = {"cases": cases, "workers": workers, "queryTimeoutMs": 3000, "netTimeoutMs": 300, "marginMs": 8000, "treeMs": 12000}
         results[name] = ctx.go_driver("./c12topo", "TestTopologies", inp, name=name, timeout=1500)
     except Exception as ex:  # noqa: BLE001 - re-raised by the caller
         errors[name] = ex
@@ -187,14 +241,25 @@ def run_topo(ctx):
         "C12 pipeline: upstream work is what the scripted servers receive (root priming '. NS' excluded, trust-anchor refresh awaited before the window)",
         "C12 pipeline: internal sub-queries are observed as cross-zone alias hops in the reply; DNSSEC operation counts are not observable at the pipeline",
         "C12 pipeline: OverBudgetIsPrivate is judged only on topologies whose firewall-off reply is a positive answer (no genuine failure to cache)",
+        "C12 pipeline, ipv6access on: one request tree = everything the namespace's own scripted servers receive from the client query until the (single-client) resolver instance has no detached helper job left (IPv6 enrichment slots + exploration probes, at most 12 s); internal sub-queries are observed as distinct nameserver-address / alias questions other than the client's own (a lower bound)",
     ]
     # ---- 1. the model ---------------------------------------------------------------------
     topos = {}
-    r = ctx.tlc(MOD, "MC_RW.tla", "MC_RW_n2.cfg", workers=4, timeout=600, heap="4g")
+    r = ctx.tlc(MOD, "MC_RW.tla", "MC_RW_n2.cfg", workers=4, timeout=600, heap="4g")   # both values of ipv6access
     t2 = _summaries(r)
-    r = ctx.tlc(MOD, "MC_RW.tla", "MC_RW_n3.cfg", workers=8, timeout=1200, heap="8g")
+    t2v6 = _summaries(r, v6=True)
+    v6m, v6err = {}, {}
+    v6th = threading.Thread(target=_v6_model, args=(ctx, thorough, v6m, v6err))
+    v6th.start()
+    try:
+        r = ctx.tlc(MOD, "MC_RW.tla", "MC_RW_n3.cfg", workers=8, timeout=1200, heap="8g")
+    finally:
+        v6th.join()
+    for ex in v6err.values():
+        raise ex
     t3 = _summaries(r)
-    if not t2 or not t3:
+    t3v6 = v6m.get("t3") or {}
+    if not t2 or not t3 or not t2v6 or not t3v6:
         raise vf.MachineryError("ResolveWork printed no behaviour summaries")
     for cfg, want in (("MC_RW_reg_tcp.cfg", ("WithinBudget",)), ("MC_RW_reg_shadow.cfg", ("ShadowEqualsOff", "OverBudgetIsPrivate")),
                       ("MC_RW_reg_leak.cfg", ("OverBudgetIsPrivate",))):
@@ -219,6 +284,20 @@ def run_topo(ctx):
         c.pop("model", None)
     stress = _stress_cases(thorough)
     allc = cases + signed + stress
+    # ipv6access on: a seeded, stratified pick of its own (the picks above stay what they were), the N=3 family
+    # restricted to glue-less referrals with several NS names
+    rnd6 = random.Random(ctx.seed * 7919 + 6)
+    m3 = {k: e for k, e in t3v6.items() if _multi_ns(e["t"])}
+    w2, w3 = (5, 4) if not thorough else (14, 18)
+    v6cases = [_case_v6("v%03d" % i, src[k]) for i, (src, k) in enumerate(
+        [(t2v6, k) for k in _select(t2v6, w2, rnd6)] + [(m3, k) for k in _select(m3, w3, rnd6)])]
+    if len(v6cases) < 4 or not any(_multi_ns(c["nodes"]) for c in v6cases):
+        raise vf.MachineryError("no ipv6access topologies with a glue-less multi-NS referral to replay (%d cases)" % len(v6cases))
+    _need_shims(ctx)
+    v6res, v6errs = {}, {}
+    v6drv = threading.Thread(target=_drive, args=(ctx, "c12topo_v6", v6cases, 12, v6res, v6errs))
+    v6drv.start()
+    ctx.log("C12 pipeline: %d ipv6access topologies (%d N=2, %d N=3 multi-NS available) replayed beside the first chunk" % (len(v6cases), len(t2v6), len(m3)))
     ctx.log("C12 pipeline: %d topologies from TLC (%d N=2, %d N=3, %d N=4 available), %d signed twins, %d DNSSEC-stress cases" % (
         len(cases), len(t2), len(t3), len(t4), len(signed), len(stress)))
     # ---- 3. replay (a few driver processes so one process never holds too many resolvers) --
@@ -245,6 +324,23 @@ def run_topo(ctx):
             tot["skipped"] += res.get("skipped") or []
             for k, v in (res.get("counters") or {}).items():
                 tot["counters"][k] = tot["counters"].get(k, 0) + v
+    v6drv.join()
+    for ex in v6errs.values():
+        raise ex
+    res6 = v6res["c12topo_v6"]
+    ctx.take_driver_result(res6, "[C12 topologies, ipv6access] ")
+    c6 = res6.get("counters") or {}
+    ctx.cov["replay"]["c12_topologies_ipv6"] = {
+        "topologies": len(v6cases), "variant_runs": res6["cases"], "drift": res6["drift"], "drift_notes": (res6.get("drift_notes") or [])[:8],
+        "skipped": (res6.get("skipped") or [])[:8], "counters": c6}
+    # vacuity guards: the runs were made, the detached jobs really ran (and were waited for) where no budget stops
+    # them, and small budgets were driven over
+    if res6["cases"] < len(v6cases) * 5 or c6.get("v6_enforce_runs", 0) < len(v6cases) * 3:
+        raise vf.MachineryError("C12 ipv6access replay ran only %d variant runs for %d cases (skipped: %s)" % (res6["cases"], len(v6cases), (res6.get("skipped") or [])[:3]))
+    if c6.get("v6_free_packets_after_reply", 0) < len(v6cases):
+        raise vf.MachineryError("C12 ipv6access replay: no detached helper lookup reached the servers after a reply (%s): jobs not waited for?" % c6)
+    if c6.get("over_budget_replies", 0) < 2:
+        raise vf.MachineryError("C12 ipv6access replay never drove the firewall over budget (%s)" % c6)
     ctx.cov["replay"]["c12_topologies"] = {
         "topologies": len(cases), "signed_twins": len(signed), "stress": len(stress), "variant_runs": tot["cases"],
         "drift": tot["drift"], "drift_notes": tot["drift_notes"][:8], "skipped": tot["skipped"][:8], "counters": tot["counters"]}
@@ -270,7 +366,8 @@ def replay_topo(ctx, path):
     if not isinstance(case, dict) or "nodes" not in case:
         return False
     ctx.tlc(MOD, "MC_RW.tla", "MC_RW_n2.cfg", workers=4, timeout=600, heap="4g")   # the property statement the replay is judged by
-    inp = {"cases": [case], "workers": 1, "queryTimeoutMs": 3000, "netTimeoutMs": 300, "marginMs": 8000}
+    _need_shims(ctx)
+    inp = {"cases": [case], "workers": 1, "queryTimeoutMs": 3000, "netTimeoutMs": 300, "marginMs": 8000, "treeMs": 12000}
     res = ctx.go_driver("./c12topo", "TestTopologies", inp, name="c12topo_replay", timeout=900)
     ctx.take_driver_result(res, "[C12 topologies, replay] ")
     ctx.note_case("replay:" + str(case.get("id")))
